@@ -304,15 +304,28 @@ class _CCHooks(solvers.QuietHooks):
         return NotImplemented
 
 
-def default_method(model, sde_type, noise):
+def default_method(model, sde_type, noise, bm_levy=None):
+    """The method sdeint hands to methods.select when the caller gives none -- by evaluating the whole validation phase (C19's
+    shape-only scenario) with method=None; `bm_levy` None means bm=None (the default Brownian motion is built), otherwise a
+    Brownian motion with that Levy-area mode is supplied."""
     cc = model.func(SDEINT, "check_contract")
-    node = next((s for s in cc.node.body if isinstance(s, ast.If) and ast.unparse(s.test) == "method is None"), None)
-    if node is None:
-        raise AnalysisError("check_contract no longer has `if method is None:`", where=astq.loc(cc))
-    it = Interp(model, _CCHooks())
-    env = {"method": None, "sde": Obj("sde", attrs={"sde_type": sde_type, "noise_type": noise})}
-    it.exec_stmt(node, env, cc)
-    return env["method"], node
+    m_ch = 1 if noise == "scalar" else 3
+    sde = make_user_sde(noise, sde_type, m=m_ch)
+    fi = model.func(SDEINT, "sdeint")
+    hooks = ContractHooks()
+    it = Interp(model, hooks)
+    bm = None if bm_levy is None else Obj("bm", attrs={"shape": (Fraction(4), Fraction(m_ch)), "levy_area_approximation": bm_levy})
+    kw = dict(sde=sde, y0=TObj((4, 3), "y0"), ts=[Fraction(0), Fraction(1, 2), Fraction(1)], bm=bm, method=None, adaptive=False,
+              options=None, names=None, logqp=False, dt=Fraction(1, 100))
+    try:
+        it.call_function(fi, [], kw)
+    except SimRaise as e:
+        if e.exc_name != "_IntegrationStarts" and not getattr(hooks, "selected", None):
+            raise
+    sel = getattr(hooks, "selected", None)
+    if not sel:
+        raise AnalysisError(f"sdeint(method=None) for ({sde_type}, {noise}) never reaches methods.select", where=astq.loc(cc))
+    return sel[0], cc.node
 
 
 def default_levy(model, method):
@@ -358,6 +371,17 @@ def r19_5(ctx):
             except SimRaise as e:
                 rep.fail("R19.5", astq.loc(cc), construct, f"no default method for ({st}, {nt}): {e.exc_name}")
                 continue
+            # "the documented default for the SDE and noise type": the default may not depend on anything else -- not on
+            # which Brownian motion was supplied
+            for blevy in dom.levy.values():
+                try:
+                    mb, _ = default_method(model, st, nt, bm_levy=blevy)
+                except SimRaise as e:
+                    mb = f"<raises {e.exc_name}>"
+                rep.check(mb == m, "R19.5", astq.loc(cc), construct + f"::bm-levy={blevy}",
+                          f"with a supplied Brownian motion whose Levy-area mode is {blevy!r} the default method for ({st}, {nt}) "
+                          f"becomes {mb}, not {m}: an unsupported (default method, Levy mode) cell would be integrated with "
+                          f"another method instead of being refused", f"default {m} whatever bm is")
             lv, node2 = default_levy(model, m)
             res = evaluate_config(model, dom, tbl, m, st, nt, lv)
             ok = m == DEFAULT_METHOD.get((st, nt)) and res[0] == "accept"
@@ -516,6 +540,8 @@ class TObj(Obj):
             "ndimension": Intrinsic("ndimension", lambda it, a, k, n, f: Fraction(len(sh))),
             "numel": Intrinsic("numel", lambda it, a, k, n, f: Fraction(__import__("math").prod(int(x) for x in sh))),
             "new_zeros": Intrinsic("new_zeros", lambda it, a, k, n, f: TObj(k.get("size", a[0] if a else ()), "zeros")),
+            "to": Intrinsic("to", lambda it, a, k, n, f: self),          # dtype / device conversions keep shape and values
+            "float": Intrinsic("float", lambda it, a, k, n, f: self), "double": Intrinsic("double", lambda it, a, k, n, f: self),
         })
 
 
@@ -627,7 +653,13 @@ class ContractHooks(solvers.QuietHooks):
         return NotImplemented
 
     def on_call(self, interp, callee, args, kwargs, node, fi):
-        from ..interp import BoundMethod
+        from ..interp import BoundMethod, Closure
+        if isinstance(callee, Closure) and callee.fi is not None and callee.fi.name == "select" \
+                and callee.fi.module.relpath.endswith("methods/__init__.py"):
+            if not hasattr(self, "selected"):
+                self.selected = []
+            self.selected.append(kwargs.get("method", args[0] if args else None))
+            return NotImplemented
         if isinstance(callee, ClassRef) and callee.cls.name == "BrownianInterval":
             self.default_bm.append(dict(kwargs))
             return Obj("default-bm", attrs={"levy_area_approximation": kwargs.get("levy_area_approximation"),
